@@ -245,10 +245,97 @@ func (r *Run) LoadReplay(out any) {
 	}
 }
 
+type part struct {
+	Name        string         `json:"name"`
+	Cov         map[string]any `json:"cov"`
+	Samples     []any          `json:"samples"`
+	Assumptions []string       `json:"assumptions"`
+	Viols       []Violation    `json:"viols"`
+	Known       []finding      `json:"known"`
+	Capped      []string       `json:"capped"`
+	States      int64          `json:"states"`
+	Transitions int64          `json:"transitions"`
+	Validated   int64          `json:"validated"`
+	Wall        float64        `json:"wall"`
+}
+
+// finishPart writes this run's results to the file named by VERIF_PART instead of producing the
+// evidence file; cmd/vxmerge combines the parts of one check (e.g. one per B-tree fan-out build).
+func (r *Run) finishPart(path string) {
+	p := part{Name: os.Getenv("VERIF_PART_NAME"), Cov: r.cov, Samples: r.samples, Assumptions: r.assumptions, Viols: r.viols, Capped: r.capped,
+		States: r.states, Transitions: r.transitions, Validated: r.validated, Wall: time.Since(r.start).Seconds()}
+	for _, f := range r.known {
+		p.Known = append(p.Known, f)
+	}
+	b, _ := json.MarshalIndent(p, "", " ")
+	if err := os.WriteFile(path, b, 0o644); err != nil {
+		Fatal("%v", err)
+	}
+	fmt.Printf("%s part %s: states=%d transitions=%d violations=%d capped=%v wall=%.1fs\n", r.Prop, p.Name, r.states, r.transitions, len(r.viols), r.capped, p.Wall)
+	os.Exit(0)
+}
+
+// Merge combines part files into the evidence of one check and finishes.
+func Merge(prop, tier string, files []string) {
+	r := Start(prop)
+	r.Tier = tier
+	var parts []any
+	seenAssume := map[string]bool{}
+	for _, f := range files {
+		b, err := os.ReadFile(f)
+		if err != nil {
+			Fatal("part %s missing: %v", f, err)
+		}
+		var p part
+		if err := json.Unmarshal(b, &p); err != nil {
+			Fatal("part %s: %v", f, err)
+		}
+		r.states += p.States
+		r.transitions += p.Transitions
+		r.validated += p.Validated
+		for _, c := range p.Capped {
+			r.capped = append(r.capped, p.Name+": "+c)
+		}
+		for _, a := range p.Assumptions {
+			if !seenAssume[a] {
+				seenAssume[a] = true
+				r.assumptions = append(r.assumptions, a)
+			}
+		}
+		for i, s := range p.Samples {
+			if i < 3 {
+				r.samples = append(r.samples, map[string]any{"part": p.Name, "sample": s})
+			}
+		}
+		for _, v := range p.Viols {
+			v.Signature = p.Name + ":" + v.Signature
+			r.viols = append(r.viols, v)
+		}
+		for _, k := range p.Known {
+			r.known[k.Signature] = k
+		}
+		p.Cov["part"] = p.Name
+		p.Cov["states"] = p.States
+		p.Cov["transitions"] = p.Transitions
+		p.Cov["wall_s"] = p.Wall
+		if rule, ok := p.Cov["rule"]; ok {
+			r.cov["rule"] = rule
+			delete(p.Cov, "rule")
+		}
+		parts = append(parts, p.Cov)
+	}
+	r.cov["configurations"] = parts
+	r.maxSamples = 1 << 20
+	r.Finish()
+}
+
 // Finish writes the evidence file, prints the protocol lines and exits.
 func (r *Run) Finish() {
 	r.mu.Lock()
 	defer r.mu.Unlock()
+	if pf := os.Getenv("VERIF_PART"); pf != "" && r.Replay == "" {
+		r.finishPart(pf)
+	}
 	exhaustive := len(r.capped) == 0
 	if _, ok := r.cov["exhaustive"]; !ok {
 		r.cov["exhaustive"] = exhaustive
